@@ -53,3 +53,13 @@ type Owned struct {
 
 // TrimErr shortens an error for witnesses.
 func TrimErr(err error) string { return trimErr(err) }
+
+// ScopeHandle returns the handle of harness scope i (safe while other goroutines create scopes).
+func (r *Run) ScopeHandle(i int) *ScopeH {
+	r.mu.Lock()
+	defer r.mu.Unlock()
+	if i < 0 || i >= len(r.Scopes) {
+		return nil
+	}
+	return r.Scopes[i]
+}
